@@ -141,3 +141,43 @@ theorem firstFit (c : Call) : ∀ (l : List Sig),
         · exact hall s' hs'
 
 end TdVerif.ParseTo
+
+namespace TdVerif.ParseTo
+
+theorem head_mem_bound (s : Sig) (c : Call) (b : List (String × Val)) (a0 : Val) (rest : List Val)
+    (n0 : String) (ns : List String) (hs : s.names = n0 :: ns) (hp : c.pos = a0 :: rest) (h : Fits s c b) :
+    argOk n0 a0 (s.required == 0) = true := by
+  obtain ⟨_, hb, _, _, hall⟩ := h
+  apply hall (n0, a0)
+  rw [hb, hs, hp]
+  simp
+
+/-- overload resolution is unambiguous: two signatures can both fit a call only when the first positional
+argument is a python int (a device index for the first signature, a number for the third) or there is no
+positional argument — and in the latter case both bind the same values -/
+theorem fits_unambiguous (c : Call) (i j : Nat) (hi : i < sigs.length) (hj : j < sigs.length)
+    (bi bj : List (String × Val)) (fi : Fits sigs[i] c bi) (fj : Fits sigs[j] c bj)
+    (hint : ∀ n rest, c.pos ≠ .pyInt n :: rest) : finish bi = finish bj := by
+  cases hp : c.pos with
+  | nil =>
+    have e1 : bi = c.kw := by rw [fi.2.1, hp]; simp
+    have e2 : bj = c.kw := by rw [fj.2.1, hp]; simp
+    rw [e1, e2]
+  | cons a0 rest =>
+    have hne : ∀ n, a0 ≠ .pyInt n := fun n h => hint n rest (by rw [hp, h])
+    have hij : i = j := by
+      simp only [sigs, List.length_cons, List.length_nil] at hi hj
+      have ci : i = 0 ∨ i = 1 ∨ i = 2 := by omega
+      have cj : j = 0 ∨ j = 1 ∨ j = 2 := by omega
+      rcases ci with rfl | rfl | rfl <;> rcases cj with rfl | rfl | rfl <;> first
+        | rfl
+        | (exfalso
+           have h1 := head_mem_bound _ c _ a0 rest _ _ rfl hp fi
+           have h2 := head_mem_bound _ c _ a0 rest _ _ rfl hp fj
+           simp only [sigs, List.getElem_cons_zero, List.getElem_cons_succ] at h1 h2
+           unfold argOk at h1 h2
+           cases a0 <;> first | (simp at h1 h2; done) | (exact absurd rfl (hne _)))
+    subst hij
+    rw [fi.2.1, fj.2.1]
+
+end TdVerif.ParseTo
